@@ -32,6 +32,10 @@ pub struct MockCfg {
     pub vocab: usize,
     pub kv_capacity: Option<usize>,
     pub filter: bool,
+    /// Accept a run with zero input tokens when no logits are requested (the caches come back
+    /// unchanged, i.e. still empty on a first run) instead of rejecting it.
+    #[serde(default)]
+    pub accept_empty: bool,
 }
 
 #[derive(Clone, Debug, Serialize, Deserialize, PartialEq)]
@@ -82,6 +86,8 @@ struct CallRecord {
     enc_out: Vec<(Vec<usize>, Vec<f32>)>,
     wants_logits: bool,
     failed: bool,
+    /// The generator did not supply this declared input.
+    missing_input: Option<String>,
     fault: Option<Fault>,
     owned_kv: bool,
 }
@@ -237,11 +243,13 @@ impl Model for Mock {
             if !inputs.iter().any(|(i, _)| i == id) {
                 rec.failed = true;
                 let name = self.name_of(*id).to_string();
+                rec.missing_input = Some(name.clone());
                 self.calls.borrow_mut().push(rec);
                 return Err(format!("mock: missing input {name}").into());
             }
         }
-        if rec.tokens.is_empty() {
+        let logits_requested = outputs.iter().any(|id| self.name_of(*id) == "logits");
+        if rec.tokens.is_empty() && !(self.cfg.accept_empty && !logits_requested) {
             rec.failed = true;
             self.calls.borrow_mut().push(rec);
             return Err("mock: empty input_ids".into());
@@ -412,12 +420,13 @@ impl Engine for GenEngine {
     }
 
     fn new(_p: &str, tier: Tier, _seed: u64) -> Self {
-        let base = MockCfg { kv_rank: 4, layers: 1, encoder_cache: false, attention_mask: true, position_ids: true, cache_position: false, use_cache_branch: false, vocab: 11, kv_capacity: None, filter: true };
+        let base = MockCfg { kv_rank: 4, layers: 1, encoder_cache: false, attention_mask: true, position_ids: true, cache_position: false, use_cache_branch: false, vocab: 11, kv_capacity: None, filter: true, accept_empty: false };
         let exh_cfgs = vec![
             base.clone(),
             MockCfg { kv_rank: 0, ..base.clone() },
             MockCfg { kv_rank: 3, layers: 2, cache_position: true, use_cache_branch: true, kv_capacity: Some(3), ..base.clone() },
             MockCfg { kv_rank: 4, encoder_cache: true, attention_mask: false, ..base.clone() },
+            MockCfg { accept_empty: true, ..base.clone() },
         ];
         let maxlen = match tier {
             Tier::Quick => 6,
@@ -439,7 +448,7 @@ impl Engine for GenEngine {
         EngineInfo {
             level: "exploration",
             rule: format!(
-                "Exhaustive sub-space: every history of length <= {} over {{append_prompt([a]), append_prompt([a,b]), next, process_prompt, clear_prompt}} x initial with_prompt in {{none, [1], [1,2,3]}} x 4 mock configurations (4-d KV cache; no KV cache; 3-d KV cache with 2 layers, cache_position, use_cache_branch and a small kv_cache_capacity; encoder+decoder caches) = {} histories, fault-free. Then seeded histories of up to 40 operations with random mock configuration and, in half of the cases, injected model faults (call fails before doing anything, returns caches of the wrong rank, empty logits, one output missing). Non-trivial = the history contains an append/clear after the first model call, or a fault fired; distinct = hash of the explicit case.",
+                "Exhaustive sub-space: every history of length <= {} over {{append_prompt([a]), append_prompt([a,b]), next, process_prompt, clear_prompt, with_prompt([a,b])}} x initial with_prompt in {{none, [1], [1,2,3]}} x 5 mock configurations (4-d KV cache; no KV cache; 3-d KV cache with 2 layers, cache_position, use_cache_branch and a small kv_cache_capacity; encoder+decoder caches; 4-d KV cache with a model that accepts a run without tokens) = {} histories, fault-free. Then seeded histories of up to 40 operations with random mock configuration and, in half of the cases, injected model faults (call fails before doing anything, returns caches of the wrong rank, empty logits, one output missing). Non-trivial = the history contains an append/clear after the first model call, or a fault fired; distinct = hash of the explicit case.",
                 self.exh_maxlen,
                 self.exh_cfgs.len() as u64 * self.exh_prompts.len() as u64 * self.exh_hist
             ),
@@ -484,6 +493,7 @@ impl Engine for GenEngine {
             vocab: r.urange(2, 17),
             kv_capacity: if r.bool() { Some(r.urange(1, 9)) } else { None },
             filter: r.bool(),
+            accept_empty: r.chance(1, 3),
         };
         let tok = |r: &mut Rng| r.below(cfg.vocab as u64) as u32;
         let with_prompt = if r.chance(3, 4) { Some((0..r.urange(0, 5)).map(|_| tok(&mut r)).collect()) } else { None };
@@ -741,6 +751,12 @@ impl Engine for GenEngine {
                             }
                         }
                     }
+                    if let (Some(missing), false) = (&rec.missing_input, st.degraded) {
+                        // no model failure and no malformed output so far: the generator simply did not pass
+                        // an input the model declares (e.g. a cache it was handed back earlier)
+                        violation = Some(Violation::new(format!("C32/declared-input-not-passed/{name}"), format!("op {i} ({name}): the model was run without its declared input {missing:?}")));
+                        break 'hist;
+                    }
                     if rec.failed {
                         // the mock rejected the call (an input is missing after an earlier failure)
                         if result.is_ok() {
@@ -864,7 +880,7 @@ impl Engine for GenEngine {
                 out.push(c);
             }
         }
-        let simple = MockCfg { kv_rank: case.cfg.kv_rank, layers: 1, encoder_cache: false, attention_mask: false, position_ids: false, cache_position: false, use_cache_branch: false, vocab: case.cfg.vocab, kv_capacity: None, filter: false };
+        let simple = MockCfg { kv_rank: case.cfg.kv_rank, layers: 1, encoder_cache: false, attention_mask: false, position_ids: false, cache_position: false, use_cache_branch: false, vocab: case.cfg.vocab, kv_capacity: None, filter: false, accept_empty: case.cfg.accept_empty };
         if simple != case.cfg {
             out.push(GenCase { cfg: simple, ..case.clone() });
             for k in 0..6 {
